@@ -201,7 +201,7 @@ class Model:
                         kinds.add("static")
                     elif dname == "classmethod":
                         kinds.add("class")
-                    elif dname == "property":
+                    elif dname.split(".")[-1] in ("property", "cached_property"):
                         kinds.add("property")
                     elif dname.endswith(".setter"):
                         kinds.add("setter")
